@@ -242,6 +242,161 @@ func rpEvalAfter(cs rpCase, warm []string) []core.Finding {
 	})
 }
 
+// ---- ManyRefs.tla: many names, repeated mentions
+
+type mrCase struct {
+	Mentions []struct {
+		N int    `json:"n"`
+		P string `json:"p"`
+	} `json:"mentions"`
+	Used    []int    `json:"used"`
+	Missing []int    `json:"missing"`
+	Warm    []string `json:"warm,omitempty"`
+}
+
+func mrText(cs mrCase) string {
+	var sb strings.Builder
+	sb.WriteString("{\n")
+	for i, m := range cs.Mentions {
+		sep := ","
+		if i == len(cs.Mentions)-1 {
+			sep = ""
+		}
+		name := fmt.Sprintf("@t%d", m.N)
+		switch m.P {
+		case "type":
+			fmt.Fprintf(&sb, "  \"p%d\": \"s\"%s // {type: \"%s\"}\n", i, sep, name)
+		case "or":
+			fmt.Fprintf(&sb, "  \"p%d\": \"s\"%s // {or: [\"%s\", \"integer\"]}\n", i, sep, name)
+		case "choice":
+			prev := m.N
+			if i > 0 {
+				prev = cs.Mentions[i-1].N
+			}
+			if prev == m.N {
+				fmt.Fprintf(&sb, "  \"p%d\": %s%s\n", i, name, sep)
+			} else {
+				fmt.Fprintf(&sb, "  \"p%d\": %s | @t%d%s\n", i, name, prev, sep)
+			}
+		default:
+			fmt.Fprintf(&sb, "  \"p%d\": %s%s\n", i, name, sep)
+		}
+	}
+	sb.WriteString("}")
+	return sb.String()
+}
+
+func mrEval(cs mrCase) []core.Finding {
+	fs := mrEvalAfter(cs, nil)
+	if len(cs.Warm) > 0 {
+		for _, f := range mrEvalAfter(cs, cs.Warm) {
+			f.Class += ":after-other-calls"
+			f.What = "after the calls " + strings.Join(cs.Warm, ", ") + " on the same object: " + f.What
+			fs = append(fs, f)
+		}
+	}
+	return fs
+}
+
+func mrEvalAfter(cs mrCase, warm []string) []core.Finding {
+	return core.Guard("many-references", func() []core.Finding {
+		text := mrText(cs)
+		s := jschema.New("root", text)
+		missing := map[int]bool{}
+		for _, m := range cs.Missing {
+			missing[m] = true
+		}
+		for _, n := range cs.Used {
+			if missing[n] {
+				continue
+			}
+			name := fmt.Sprintf("@t%d", n)
+			if err := s.AddType(name, jschema.New(name, `"s"`)); err != nil {
+				return []core.Finding{{Class: "refs:addtype:many", What: fmt.Sprintf("AddType(%s): %v\n%s", name, firstLineOf(err), text)}}
+			}
+		}
+		if p := warmUp(s, warm); p != "" {
+			return []core.Finding{{Class: "refs:panic", What: "panic " + p + "\n" + text}}
+		}
+		size := fmt.Sprintf("%d-names", len(cs.Used))
+		if len(cs.Used) >= 8 {
+			size = "8-or-more-names"
+		}
+		var fs []core.Finding
+		used, uerr := s.UsedUserTypes()
+		seen := map[string]int{}
+		for _, u := range used {
+			seen[u]++
+		}
+		want := map[string]bool{}
+		for _, n := range cs.Used {
+			want[fmt.Sprintf("@t%d", n)] = true
+		}
+		switch {
+		case uerr != nil:
+			fs = append(fs, core.Finding{Class: "refs:used-error:many:" + size, What: fmt.Sprintf("UsedUserTypes() = %v\n%s", firstLineOf(uerr), text)})
+		case len(used) != len(seen):
+			fs = append(fs, core.Finding{Class: "refs:used-duplicates:many:" + size, What: fmt.Sprintf("UsedUserTypes() = %v has duplicates\n%s", used, text)})
+		default:
+			ok := len(seen) == len(want)
+			for u := range seen {
+				if !want[u] {
+					ok = false
+				}
+			}
+			if !ok {
+				fs = append(fs, core.Finding{Class: "refs:used-set:many:" + size, What: fmt.Sprintf("UsedUserTypes() = %v, the text mentions %v\n%s", used, cs.Used, text)})
+			}
+		}
+		cerr := s.Check()
+		switch {
+		case len(cs.Missing) == 0 && cerr != nil && errCode(cerr) == 1302:
+			fs = append(fs, core.Finding{Class: "refs:rejects-complete-project:many:" + size, What: fmt.Sprintf("every mentioned type is registered but Check() = %v\n%s", firstLineOf(cerr), text)})
+		case len(cs.Missing) > 0 && cerr == nil:
+			fs = append(fs, core.Finding{Class: "refs:accepts-missing-type:many:" + size, What: fmt.Sprintf("@t%d is mentioned and not registered but Check() = nil\n%s", cs.Missing[0], text)})
+		case len(cs.Missing) > 0 && (errCode(cerr) != 1302 || !strings.Contains(cerr.Error(), fmt.Sprintf(`"@t%d"`, cs.Missing[0]))):
+			fs = append(fs, core.Finding{Class: fmt.Sprintf("refs:wrong-diagnostic:code-%d:many:%s", errCode(cerr), size), What: fmt.Sprintf("@t%d is missing but Check() = %v\n%s", cs.Missing[0], firstLineOf(cerr), text)})
+		}
+		return fs
+	})
+}
+
+func runManyRefs(c *core.Ctx) error {
+	cfgs := []string{"ManyRefs_seq.cfg", "ManyRefs_free.cfg"}
+	if c.Thorough() {
+		cfgs = append(cfgs, "ManyRefs_seq70.cfg")
+	}
+	for _, cfg := range cfgs {
+		var cases []mrCase
+		res, err := tlc.Run(tlc.Opts{Module: "ManyRefs", Cfg: cfg, Workers: 8, OnLine: func(l string) {
+			var cs mrCase
+			if json.Unmarshal([]byte(l), &cs) == nil && len(cs.Mentions) > 0 {
+				cases = append(cases, cs)
+			}
+		}})
+		res.Cleanup()
+		if err != nil {
+			return err
+		}
+		if err := res.MustOK(); err != nil {
+			return err
+		}
+		c.AddTLC(cfg, res)
+		if len(cases) == 0 {
+			return fmt.Errorf("%s: no cases", cfg)
+		}
+		for i := range cases {
+			cases[i].Warm = callPrefix(i, c.Seed)
+		}
+		core.ParallelFor(len(cases), func(i int) {
+			c.CountEval(2)
+			c.Report(cases[i], mrEval(cases[i]))
+		})
+		c.Set("many_refs_"+cfg, len(cases))
+	}
+	return nil
+}
+
 func runC05(c *core.Ctx) error {
 	cfg := "RefPositions_quick.cfg"
 	files := map[string][]byte{}
@@ -287,6 +442,9 @@ func runC05(c *core.Ctx) error {
 	for _, cs := range cases {
 		c.Nontrivial(rpDump(cs))
 	}
+	if err := runManyRefs(c); err != nil {
+		return err
+	}
 	c.Sample(strings.Split(rpDump(cases[len(cases)/2]), "\n"))
 	c.Set("rule", "every hygienic project of RefPositions.tla: root object with 1-2(3) mentions of @a/@b/@c in the positions value, choice, key shortcut, type, or (name), or (rule-set), allOf, additionalProperties; type definitions that mention each other one level further (acyclic); every subset of definitions registered; with and without an unused extra type. Replayed: UsedUserTypes() as a duplicate-free set = Used, Check() = 1302 naming a member of Missing iff Missing is not empty, all observables identical with and without the unused type. distinct_nontrivial = distinct projects")
 	c.Assume = append(c.Assume, "kinds fit positions (key/type/or positions use string types, allOf an object type); a registered type nothing reaches mentions registered names only")
@@ -296,6 +454,10 @@ func runC05(c *core.Ctx) error {
 func init() {
 	register(&core.Check{ID: "C05", Level: "model_checking", Run: runC05,
 		Replay: func(c *core.Ctx, raw json.RawMessage) ([]core.Finding, error) {
+			var mr mrCase
+			if json.Unmarshal(raw, &mr) == nil && len(mr.Mentions) > 0 {
+				return mrEval(mr), nil
+			}
 			var cs rpCase
 			if err := json.Unmarshal(raw, &cs); err != nil {
 				return nil, err
